@@ -255,7 +255,7 @@ pub fn check_edit(t: &Table, e: &TypeEntry, v: &Val, path: &[(usize, usize)], ed
 /// loop. Variants of that group: 0 = time first; 1..=6 = one of the two objects repeated at position 0 / 1 / 2; 7, 8 = one
 /// object removed. Applied to the first date/time element of the value's tree.
 pub const DATETIME_VARIANTS: usize = 9;
-fn find_datetime(gs: &mut [Group]) -> Option<&mut Elem> {
+pub fn find_datetime(gs: &mut [Group]) -> Option<&mut Elem> {
     for g in gs.iter_mut() {
         let is_dt = g.enc == Enc::DateTime;
         for e in g.elems.iter_mut() {
